@@ -88,3 +88,42 @@ def crash_faults(pid, tier, seed):
                               "model": v, "reason": "; ".join(v["problems"][:3]),
                               "native": {"reproduced": True, "detail": "fault %s at primitive #%d %s(%s): %s" % ("/".join(v["fault"]), v["primitive"], v["name"], v["path"], "; ".join(v["problems"][:3]))}})
     return res
+
+
+def fixed_demos(pid, tier, seed):
+    """Thorough tier only: BOUNDED regression guard for the defects recorded as fixed in known_findings.json.  Each has a native demonstration under
+    findings/ (the failing input, call sequence or history, run against the real code); on a tree where the defect has returned the demo exits 1 and
+    the check reports a VIOLATION with that demo as the failing input.  Never counted as proved: listed under bounded_standins."""
+    import json
+    import re
+    import subprocess
+    if tier != "thorough":
+        return {"name": "fixed-defect-demos", "obligations": 0, "discharged": 0, "failed": [], "undecided": [], "skipped": "thorough tier only"}
+    here = os.path.dirname(os.path.dirname(os.path.abspath(__file__)))
+    repo = os.environ.get("PYVC_REPO", "/repo")
+    with open(os.path.join(here, "known_findings.json")) as f:
+        known = json.load(f)
+    res = {"name": "fixed-defect-demos", "obligations": 0, "discharged": 0, "failed": [], "undecided": [], "bounded_standins": []}
+    for line in known.get("fixed", []):
+        m = re.match(r"fixed: property=(C\d+) (\w+) ", line)
+        demos = re.findall(r"findings/([\w.]+\.py)", line)
+        if not m or m.group(1) != pid or not demos:
+            continue
+        for d in demos:
+            path = os.path.join(here, "findings", d)
+            try:
+                p = subprocess.run(["/venv/bin/python", path, repo], capture_output=True, text=True, timeout=600, env=dict(os.environ, PYVC_REPO=repo))
+            except Exception as e:
+                res["undecided"].append({"function": "findings/" + d, "obligation": "native demonstration", "reason": "demo did not finish: %s" % e})
+                continue
+            out = (p.stdout or "").strip().splitlines()
+            res["bounded_standins"].append({"what": "native demonstration of the repaired defect %s (%s): findings/%s" % (m.group(2), pid, d),
+                                            "bound": "the one input / call sequence / history of the demonstration", "result": "holds" if p.returncode == 0 else "exit %d" % p.returncode})
+            if p.returncode == 1:
+                res["failed"].append({"function": "findings/" + d, "name": "bounded/fixed-defect-demo/" + d, "kind": "bounded-native-demo",
+                                      "clause": "the defect repaired by %s does not return" % m.group(2), "model": {"demo": "findings/" + d, "output": out[-6:]},
+                                      "reason": "; ".join(out[-3:]),
+                                      "native": {"reproduced": True, "detail": "findings/%s exits 1 on this tree: %s" % (d, "; ".join(out[-3:]))}})
+            elif p.returncode != 0:
+                res["undecided"].append({"function": "findings/" + d, "obligation": "native demonstration", "reason": "demo exit %d: %s" % (p.returncode, (p.stderr or "")[-300:])})
+    return res
